@@ -33,7 +33,7 @@ def run(ctx):
         for n, workers in sizes:
             make_tree(root, n, rng)
             for driver in ('parblock', 'parfile'):
-                for stall, extra in (((20000, []), (0, [])) if n == 400 else ((0, []), (0, ['--fsync']), (0, ['--no-perms', '--no-timestamps']))):
+                for stall, extra in (((20000, []), (0, [])) if n == 400 else ((0, []), (0, ['--fsync']), (0, ['--no-perms', '--no-timestamps']), (0, ['-L']))):
                     shutil.rmtree(root + '/D', ignore_errors=True)
                     plan = [f'stall copy_file_range {stall}'] if stall else []
                     r = scen.run_xcp(root, ['-r', '--driver', driver, '--workers', str(workers)] + extra + ['S', 'D'], plan=plan, timeout=600, nofile=1024, trace=True)
@@ -134,26 +134,27 @@ def run(ctx):
         # ---- many DIRECTORIES with a non-default mode (0750, 2775): the walker must not keep anything open per directory
         subprocess.run(['rm', '-rf', root + '/S', root + '/D'])
         os.makedirs(root + '/S')
-        for i in range(700):
+        ndirs = 1200
+        for i in range(ndirs):
             os.makedirs(f'{root}/S/g{i // 50}/d{i}', exist_ok=True); os.chmod(f'{root}/S/g{i // 50}/d{i}', [0o750, 0o2775, 0o700][i % 3])
             open(f'{root}/S/g{i // 50}/d{i}/f', 'wb').write(b'x')
-        for driver in ('parblock', 'parfile'):
+        for driver, dextra in (('parblock', []), ('parfile', ['--fsync']), ('parblock', ['--fsync']), ('parfile', [])):
             subprocess.run(['rm', '-rf', root + '/D'])
-            r = scen.run_xcp(root, ['-r', '--driver', driver, '--workers', '4', 'S', 'D'], timeout=600, nofile=1024, trace=True)
+            r = scen.run_xcp(root, ['-r', '--driver', driver, '--workers', '4'] + dextra + ['S', 'D'], timeout=600, nofile=1024, trace=True)
             peak = r.final.get('peak_fds', -1)
             bound = (2 * (CAP + 4 + 1) if driver == 'parblock' else 2 * 4) + CONST
-            ctx.count(f'many_dirs.{driver}.exit.{r.cls}'); ctx.case(('many-dirs', driver), True, sample=dict(directories=700, modes='0750/2775/0700', driver=driver, peak_descriptors=peak, model_bound=bound))
-            peaks[('many-dirs', driver)] = peak
+            ctx.count(f'many_dirs.{driver}.exit.{r.cls}'); ctx.case(('many-dirs', driver, tuple(dextra)), True, sample=dict(directories=ndirs, options=dextra, modes='0750/2775/0700', driver=driver, peak_descriptors=peak, model_bound=bound))
+            peaks[('many-dirs', driver, tuple(dextra))] = peak
             ncopied = sum(len(fs) for _, _, fs in os.walk(root + '/D'))
-            if r.cls != '0' or ncopied != 700:
-                ctx.violation(f'many-dirs-{driver}.json', dict(directories=700, driver=driver, exit=r.cls, copied=ncopied, peak=peak, stderr=r.stderr[-300:]),
-                              f'C20: copying 700 directories with non-default modes under RLIMIT_NOFILE=1024 failed or is incomplete ({r.cls}, {ncopied} of 700 files, peak {peak}): {r.stderr.strip()[-100:]}')
+            if r.cls != '0' or ncopied != ndirs:
+                ctx.violation(f'many-dirs-{driver}-{len(dextra)}.json', dict(directories=ndirs, driver=driver, options=dextra, exit=r.cls, copied=ncopied, peak=peak, stderr=r.stderr[-300:]),
+                              f'C20: copying {ndirs} directories (non-default modes, options {dextra}) under RLIMIT_NOFILE=1024 failed or is incomplete ({r.cls}, {ncopied} of {ndirs} files, peak {peak}): {r.stderr.strip()[-100:]}')
             elif peak > bound:
-                ctx.violation(f'many-dirs-{driver}-peak.json', dict(directories=700, driver=driver, peak=peak, bound=bound, correspondence='descriptor peak vs model bound with many non-default-mode directories'),
-                              f'measured peak {peak} exceeds the model bound {bound} with 700 non-default-mode directories ({driver})', no_input=True)
+                ctx.violation(f'many-dirs-{driver}-{len(dextra)}-peak.json', dict(directories=ndirs, driver=driver, peak=peak, bound=bound, correspondence='descriptor peak vs model bound with many non-default-mode directories'),
+                              f'measured peak {peak} exceeds the model bound {bound} with {ndirs} non-default-mode directories ({driver}, {dextra})', no_input=True)
         subprocess.run(['rm', '-rf', root + '/S', root + '/D'])
     ctx.cov['peaks'] = {str(k): v for k, v in peaks.items()}
-    ctx.cov['rule'] = 'trees of 400..3000 (thorough: ..20000) small files x driver x workers x {no stall, every copy_file_range stalled}; RLIMIT_NOFILE=1024; a tree 1100 directories deep; 700 (thorough 3000) sparse files with stalled pool threads; 1200 files with every fchmod failing; 700 directories with non-default modes. distinct = distinct (files, workers, driver, stall)'
+    ctx.cov['rule'] = 'trees of 400..3000 (thorough: ..20000) small files x driver x workers x {no stall, every copy_file_range stalled}; RLIMIT_NOFILE=1024; a tree 1100 directories deep; 700 (thorough 3000) sparse files with stalled pool threads; 1200 files with every fchmod failing; 1200 directories with non-default modes, also with --fsync; -L on the 1200/3000-file trees. distinct = distinct (files, workers, driver, stall)'
     ctx.assumptions += ['descriptors = 2 per open CopyHandle + a constant (stdio, directory handles); crossbeam/threadpool internals hold no descriptors']
 
 
